@@ -119,7 +119,8 @@ def usageBits (u : List PolicyTag) : Nat := (u.map PolicyTag.bit).foldl (· + ·
 
 /-! ### the handler -/
 
-inductive LinkType | unset | core | parent | child | peer
+/-- `topology.LinkType`; `other` = any value without a name -/
+inductive LinkType | unset | core | parent | child | peer | other
 deriving DecidableEq, Repr
 
 structure Intf where
